@@ -199,6 +199,22 @@ class C01(ValProp):
 
 class C02(ValProp):
     pid = 'C02'
+
+    def generate(self, g, tier, focus=None):
+        out = ValProp.generate(self, g, tier)
+        r = g.rng
+        # sequences whose fixed-size composite elements are exactly 16 / 32 / 64 bytes long (chunk-size
+        # coincidences), sequences of variable-size elements followed by more data in the same stream
+        for _ in range(self.n(tier) // 5):
+            e = r.choice([['cont', 'u128', 'u128'], ['cont', 'u64', 'u64', 'u64', 'u64'], ['vec', ['Bv', 16], 2], ['vec', ['bv', 128], 2],
+                          ['cont', 'u64', 'u64'], ['cont', ['Bv', 32], ['Bv', 32]], ['vec', 'u128', 2], ['cont', 'u256'], ['Bv', 32],
+                          ['cont', 'u8', ['vec', 'u8', 31]], ['vec', ['cont', 'u64', 'u64'], 2]])
+            seq = r.choice([['list', e, r.choice([1, 2, 3, 5, 8])], ['vec', e, r.choice([1, 2, 3, 4])]])
+            ve = r.choice([['Bl', 9], ['list', 'u16', 3], ['bl', 12], ['union', 'none', 'u32']])
+            vseq = r.choice([['list', ve, 4], ['vec', ve, 2]])
+            t = r.choice([seq, ['cont', 'u8', seq, 'u16'], ['cont', vseq, seq, vseq], ['list', vseq, 3], ['cont', vseq, ['Bl', 5], 'u8', vseq]])
+            out.append(show(['val', t, g.val(t, 30)]))
+        return out
     rule = ('random (type, value) cases; encode_bytes, bytes(), serialize(stream) after a 3-byte prefix (content, '
             'return value, tell) against Spec.serialize; non-trivial/distinct as C01')
 
